@@ -30,7 +30,7 @@ From RM Require Import Model.EncTimingSpec Proofs.ControlPointsFacts Proofs.EncT
   Proofs.TimingPointsValues.
 From RM Require Import Proofs.Enc2Values Proofs.Enc2Samples Proofs.Enc2Float Proofs.Enc2Timing Proofs.Enc2Slider Proofs.Enc2Examples.
 From RM Require Proofs.Enc2SvReal.
-From RM Require Import Proofs.Enc2SvRT Proofs.Enc2Framing.
+From RM Require Import Proofs.Enc2SvRT Proofs.Enc2Framing Proofs.Enc2SampleShape.
 From Coq Require Reals.
 From RM Require Model.Curve.
 From RM Require Import Model.DrvEnc Proofs.EncMapImage.
@@ -321,6 +321,80 @@ Theorem C02_processed_object_image :
   kind_image (h_kind h') = true /\ samples_image (h_samples h') = true.
 Proof. exact processed_object_inv. Qed.
 Print Assumptions C02_processed_object_image.
+
+(* ---------- T02b on decoded maps: the hypotheses discharged ---------- *)
+
+(* [kind_image] and [samples_image] hold of every hit object of every decoded map (every sample
+   point of a decoded map carries a real bank: the decoder replaces None by Normal) *)
+Theorem C02_decoded_objects_shape :
+  forall dist_of lines m,
+  Forall no_lf_line lines -> decode_beatmap dist_of lines = Done m ->
+  Forall (fun h => kind_image (h_kind h) = true /\ samples_image (h_samples h) = true) (hov_hit_objects (bmv_ho m)).
+Proof. exact decoded_objects_shape. Qed.
+Print Assumptions C02_decoded_objects_shape.
+
+(* [object_ok] holds of every circle, spinner and hold of every decoded map outside D30 (sample file
+   name ending in white space) and D26 (end time beyond the parse limit) *)
+Theorem C02_decoded_object_ok :
+  forall dist_of lines m h,
+  Forall no_lf_line lines -> decode_beatmap dist_of lines = Done m -> In h (hov_hit_objects (bmv_ho m)) ->
+  (match h_kind h with KSlider _ => False | _ => True end) ->
+  d30_class h = false -> d26_class h = false -> object_ok h = true.
+Proof. exact decoded_object_ok. Qed.
+Print Assumptions C02_decoded_object_ok.
+
+(* T02b for the circles of decoded maps: NO hypothesis beyond the class D30 *)
+Theorem C02_decoded_circle_round_trip :
+  forall dist_of fmt_f64 fmt_f32 fmt_int, fmt_ok fmt_f64 fmt_f32 fmt_int ->
+  forall lines m mode h c l,
+  Forall no_lf_line lines -> decode_beatmap dist_of lines = Done m -> In h (hov_hit_objects (bmv_ho m)) ->
+  h_kind h = KCircle c -> d30_class h = false -> object_line dist_of mode h = Done l ->
+  forall st, exists st' o,
+    parse_hit_objects st (render fmt_f64 fmt_f32 fmt_int l) = Done (st', Ok) /\ st' = push st o /\
+    ho_objects st' = ho_objects st ++ [o] /\
+    carry_object o =
+      carry_object (mkHObj (h_start h)
+                           (KCircle (mkCircle (ci_pos c) (forced_new_combo st (ci_new_combo c))
+                                              (if ci_new_combo c then ci_combo_offset c else 0)))
+                           (h_samples h)) /\
+    (combo_kept st c = true -> carry_object o = carry_object h).
+Proof.
+  intros dist f64 f32 fi Hfmt lines m mode h c l H1 H2 H3 H4 H5 H6.
+  exact (decoded_circle_round_trip dist f64 f32 fi Hfmt lines m mode h c l H1 H2 H3 H4 H5 H6).
+Qed.
+Print Assumptions C02_decoded_circle_round_trip.
+
+(* ... for spinners and holds: outside D30 and D26, and with the float side condition on
+   start + duration - start (proved for integer-valued times below) *)
+Theorem C02_decoded_spinner_round_trip_partial :
+  forall dist_of fmt_f64 fmt_f32 fmt_int, fmt_ok fmt_f64 fmt_f32 fmt_int ->
+  forall lines m mode h s l,
+  Forall no_lf_line lines -> decode_beatmap dist_of lines = Done m -> In h (hov_hit_objects (bmv_ho m)) ->
+  h_kind h = KSpinner s -> d30_class h = false -> d26_class h = false ->
+  spinner_time_ok (h_start h) (sp_duration s) -> object_line dist_of mode h = Done l ->
+  forall st, exists st' o,
+    parse_hit_objects st (render fmt_f64 fmt_f32 fmt_int l) = Done (st', Ok) /\ st' = push st o /\
+    ho_objects st' = ho_objects st ++ [o] /\ carry_object o = carry_object h.
+Proof.
+  intros dist f64 f32 fi Hfmt lines m mode h s l H1 H2 H3 H4 H5 H6 H7 H8.
+  exact (decoded_spinner_round_trip dist f64 f32 fi Hfmt lines m mode h s l H1 H2 H3 H4 H5 H6 H7 H8).
+Qed.
+Print Assumptions C02_decoded_spinner_round_trip_partial.
+
+Theorem C02_decoded_hold_round_trip_partial :
+  forall dist_of fmt_f64 fmt_f32 fmt_int, fmt_ok fmt_f64 fmt_f32 fmt_int ->
+  forall lines m mode h hd l,
+  Forall no_lf_line lines -> decode_beatmap dist_of lines = Done m -> In h (hov_hit_objects (bmv_ho m)) ->
+  h_kind h = KHold hd -> d30_class h = false -> d26_class h = false ->
+  hold_time_ok (h_start h) (hd_duration hd) -> object_line dist_of mode h = Done l ->
+  forall st, exists st' o,
+    parse_hit_objects st (render fmt_f64 fmt_f32 fmt_int l) = Done (st', Ok) /\ st' = push st o /\
+    ho_objects st' = ho_objects st ++ [o] /\ carry_object o = carry_object h.
+Proof.
+  intros dist f64 f32 fi Hfmt lines m mode h hd l H1 H2 H3 H4 H5 H6 H7 H8.
+  exact (decoded_hold_round_trip dist f64 f32 fi Hfmt lines m mode h hd l H1 H2 H3 H4 H5 H6 H7 H8).
+Qed.
+Print Assumptions C02_decoded_hold_round_trip_partial.
 
 (* integer-valued times (PARTIAL: the general IEEE statement is open, see Proofs/EncObjTimes.v) *)
 Theorem C02_times_ok_partial :
@@ -756,13 +830,15 @@ Proof. exact sliders_example. Qed.
 
 (* ---------- status of the remaining obligations ----------
 
-   T02b  circles / spinners / holds: MECHANISED per line (above), up to [carry_object] (per-sample
-     volume / custom index / suffix / layering erased).  Hypotheses that are not proved of every
-     decoded map: [object_ok] -- its sample part is now an invariant outside D30
-     (C04_decoded_samples_image); it is false in class D26 (start + duration leaves the parse limit
-     by rounding: C02_decoded_end_beyond_limit_refuted) and D30 (sample file name ending in white
-     space: C04_sample_name_trimmed_refuted) --, [spinner_time_ok] / [hold_time_ok] for non-integer
-     times (C02_times_ok_partial covers integer times), sample points carrying a real bank.
+   T02b  circles / spinners / holds: MECHANISED per line, up to [carry_object] (per-sample volume /
+     custom index / suffix / layering erased), and for decoded maps with the hypotheses discharged:
+     C02_decoded_circle_round_trip has no hypothesis beyond class D30 (sample file name ending in
+     white space: C04_sample_name_trimmed_refuted); spinners and holds additionally exclude D26
+     (start + duration leaves the parse limit by rounding: C02_decoded_end_beyond_limit_refuted)
+     and keep ONE open side condition, [spinner_time_ok] / [hold_time_ok] (fl(fl(start + d) - start)
+     = d) for non-integer times (C02_times_ok_partial covers integer times).  [object_ok],
+     [samples_image], [kind_image] are facts about every decoded map (C02_decoded_object_ok,
+     C02_decoded_objects_shape, C04_decoded_samples_image).
 
    T02c  slider path strings: MECHANISED in full (C02_path_round_trip on the decoder's image
      C02_path_image_is_decoder_image, outside D13 / D17 / consecutive Catmull).
